@@ -40,7 +40,10 @@ Bases == <<
   <<N("srv"), N("list"), P("z")>>,                                   \* 13
   <<N("srv"), P("z")>>,                                              \* 14
   <<N("top")>>,                                                      \* 15
-  <<N("pkg"), O(<<"-ov">>), O(<<"-f">>), P("x")>>                    \* 16
+  <<N("pkg"), O(<<"-ov">>), O(<<"-f">>), P("x")>>,                   \* 16
+  <<N("grp")>>,                                                      \* 17  a container without handler: only help / version work
+  <<N("lazy"), P("a")>>,                                             \* 18  handler built by a factory
+  <<N("grp"), N("one"), P("z")>>                                     \* 19
 >>
 
 InsertAt(l, p, u) == SubSeq(l, 1, p) \o <<u>> \o SubSeq(l, p + 1, Len(l))
@@ -86,5 +89,5 @@ Emit == Fin => PrintT(ToJson([units |-> line, beh |-> beh, streams |-> streams,
                               exp |-> [status |-> O9.status, calls |-> O9.calls,
                                        outTags |-> SetSeq(O9.outTags), errTags |-> SetSeq(O9.errTags),
                                        outEsc |-> O9.outEsc, errEsc |-> O9.errEsc, io |-> O9.io, page |-> O9.page,
-                                       answer |-> O9.answer, consumed |-> O9.consumed, args |-> O9.args]]))
+                                       answer |-> O9.answer, consumed |-> O9.consumed, args |-> O9.args, built |-> O9.built]]))
 =============================================================================
